@@ -105,3 +105,59 @@ def snapshot(module):
 
 def diff_snap(a, b):
     return [k for k in a if a[k] != b.get(k)]
+
+
+def rand_spec(rng, parents, counts, stim=False, uniform=False):
+    """A CellSpec with short dyadic parameters (exact in float64)."""
+    import cablelib
+    n = sum(counts)
+    if uniform:
+        r, l, ra, cm = [1.0] * n, [10.0] * n, [5000.0] * n, [1.0] * n
+    else:
+        r = [dy(rng, 0.25, 4) for _ in range(n)]
+        l = [dy(rng, 2, 40) for _ in range(n)]
+        ra = [float(rng.choice([500, 1000, 2000, 5000, 8000])) for _ in range(n)]
+        cm = [dy(rng, 0.5, 2) for _ in range(n)]
+    g = [rng.choice([1, 2, 4, 8]) * 2.0 ** -14 for _ in range(n)]
+    e = [dy(rng, -80, -50, 4) for _ in range(n)]
+    v = [dy(rng, -90, -40, 4) for _ in range(n)]
+    i = [0.0] * n
+    if stim:
+        for k in rng.sample(range(n), min(n, rng.randint(1, 2))):
+            i[k] = dy(rng, -1, 1, 16)
+    return cablelib.CellSpec(parents, counts, r, l, ra, cm, g, e, v, i)
+
+
+def cell_from_spec(spec):
+    """jx.Cell realising a cablelib.CellSpec (Leak channel, per-compartment parameters)."""
+    from jaxley.channels import Leak
+    comp = jx.Compartment()
+    with quiet():
+        cell = jx.Cell([jx.Branch([comp] * c) for c in spec.counts], parents=list(spec.parents))
+        cell.insert(Leak())
+        for k in range(spec.n):
+            vw = cell.select(nodes=[k])
+            vw.set("radius", float(spec.r[k]))
+            vw.set("length", float(spec.l[k]))
+            vw.set("axial_resistivity", float(spec.ra[k]))
+            vw.set("capacitance", float(spec.cm[k]))
+            vw.set("v", float(spec.v[k]))
+            vw.set("Leak_gLeak", float(spec.g[k]))
+            vw.set("Leak_eLeak", float(spec.e[k]))
+        for k in range(spec.n):
+            if spec.i[k] != 0:
+                cell.select(nodes=[k]).stimulate(jnp.asarray([float(spec.i[k])]))
+        cell.record("v")
+    return cell
+
+
+def one_step(module, dt, solver, voltage_solver):
+    """Voltages of all compartments after ONE step (column 1 of the recordings)."""
+    with quiet():
+        kw = dict(delta_t=dt, solver=solver, voltage_solver=voltage_solver)
+        if len(module.externals) == 0:
+            kw["t_max"] = 0.0
+        out = jx.integrate(module, **kw)
+    out = np.asarray(out)
+    assert out.shape[1] == 2, out.shape
+    return out[:, 1]
